@@ -886,6 +886,45 @@ func (cl *collector) inductive(x *ssa.Phi, depth int) {
 	if l, ok := phiLowerBounds(x.Parent())[x]; ok && l > -inf && l < inf {
 		f.addLE(term{"", l}, t, 0)
 	}
+	// counter started from one value e0 and only stepped in one direction: bounded by e0
+	{
+		var start ssa.Value
+		single, up, down := true, false, false
+		for _, e := range x.Edges {
+			e = strip(e)
+			if b, ok := e.(*ssa.BinOp); ok && (b.Op == token.ADD || b.Op == token.SUB) {
+				if k, isC := constInt(b.Y); isC && strip(b.X) == ssa.Value(x) {
+					if b.Op == token.SUB {
+						k = -k
+					}
+					if k > 0 {
+						up = true
+					}
+					if k < 0 {
+						down = true
+					}
+					continue
+				}
+			}
+			if start == nil {
+				start = e
+			} else if start != e {
+				single = false
+			}
+		}
+		if single && start != nil && !(up && down) && depth < 6 {
+			if _, isC := constInt(start); !isC {
+				st := p.intTerm(start, q)
+				cl.define(start, depth+1)
+				if !up {
+					f.addLE(t, st, 0)
+				}
+				if !down {
+					f.addLE(st, t, 0)
+				}
+			}
+		}
+	}
 	lo, hi := inf, -inf
 	loOK, hiOK := true, true
 	for _, e := range x.Edges {
@@ -1145,6 +1184,11 @@ func (cl *collector) calleeResult(call *ssa.Call, callee *ssa.Function, resultId
 			if s.param < len(call.Call.Args) {
 				f.addLE(rt, p.lenTerm(call.Call.Args[s.param], q), 0)
 				cl.defineLen(call.Call.Args[s.param], depth+1)
+			}
+		case "le-param":
+			if s.param < len(call.Call.Args) {
+				f.addLE(rt, p.intTerm(call.Call.Args[s.param], q), 0)
+				cl.define(call.Call.Args[s.param], depth+1)
 			}
 		}
 	}
